@@ -26,6 +26,8 @@ type vStep struct {
 	New  string `json:"new,omitempty"`
 	Color string `json:"color,omitempty"`
 	Convs []string `json:"convs"`
+	What  string   `json:"what,omitempty"`
+	Cut   int      `json:"cut,omitempty"`
 }
 
 type vSchedule struct {
@@ -45,6 +47,11 @@ type vRow struct {
 	St   *vState `json:"st"`
 	Obs  *vObs   `json:"obs"`
 	NoViewConvert bool `json:"noViewConvert"`
+	Pre     *vState  `json:"pre,omitempty"`
+	PreVis  []vEntry `json:"preVis,omitempty"`
+	Order   []string `json:"order,omitempty"`
+	ExpTags map[string]vTagSt `json:"expTags,omitempty"`
+	Last    bool     `json:"last"`
 	Ms   int64   `json:"ms"`
 }
 
@@ -52,7 +59,7 @@ const vWait = 8 * time.Second
 
 func vNewScenario(t *testing.T, base string, w *vWorld, convs []string, free bool) (*vScenario, error) {
 	s := &vScenario{w: w, dirs: map[string]string{"base": base}, fileIDs: map[string]string{}, fileCont: map[string][]vEntry{},
-		defs: map[string]vDef{}, views: map[string]*View{}, viewFirst: map[string]string{}, convNames: convs, orphanFlag: map[string]bool{}}
+		defs: map[string]vDef{}, views: map[string]*View{}, viewFirst: map[string]string{}, convNames: convs, orphanFlag: map[string]bool{}, partial: map[string]bool{}}
 	for _, d := range []string{"pcap", "index", "snapshot", "state", "converter", "watch"} {
 		s.dirs[d] = filepath.Join(base, d) + "/"
 		if err := os.MkdirAll(s.dirs[d], 0o755); err != nil {
@@ -240,6 +247,8 @@ func (s *vScenario) exec(st vStep) (res, msg string, fatal error) {
 		delete(s.views, st.V)
 		delete(s.viewFirst, st.V)
 		return "ok", "", s.sync()
+	case "EndSettle":
+		return "ok", "", nil
 	case "Restart":
 		for vn, v := range s.views {
 			v.Release()
@@ -336,29 +345,42 @@ func TestVerifManager(t *testing.T) {
 		if err != nil {
 			t.Fatalf("schedule %s: setup: %v", sc.ID, err)
 		}
-		n := 0
-		emit := func(ev vStep, res, msg string, t0 time.Time) bool {
-			if ev.Convs == nil {
-				ev.Convs = []string{} // the TLC Json module does not accept null
-			}
-			st, err := s.project()
-			if err != nil {
-				js, _ := json.Marshal(vRow{Tr: tr, Sid: sc.ID, N: n, Ev: ev, Res: "infra", Msg: err.Error()})
+		mkEmit := func(s *vScenario, sid string) func(ev vStep, res, msg string, t0 time.Time, extra func(*vRow)) bool {
+			n := 0
+			return func(ev vStep, res, msg string, t0 time.Time, extra func(*vRow)) bool {
+				if ev.Convs == nil {
+					ev.Convs = []string{} // the TLC Json module does not accept null
+				}
+				st, err := s.project()
+				if err != nil {
+					js, _ := json.Marshal(vRow{Tr: tr, Sid: sid, N: n, Ev: ev, Res: "infra", Msg: err.Error()})
+					bw.Write(js)
+					bw.WriteByte('\n')
+					summary["infra"]++
+					return false
+				}
+				s.trackStateFile(st)
+				obs := s.observe(st)
+				row := vRow{Tr: tr, Sid: sid, N: n, Ev: ev, Res: res, Msg: msg, St: st, Obs: obs, Ms: time.Since(t0).Milliseconds(), NoViewConvert: !s.viewConverted}
+				if extra != nil {
+					extra(&row)
+				}
+				js, err := json.Marshal(row)
+				if err != nil {
+					t.Fatal(err)
+				}
 				bw.Write(js)
 				bw.WriteByte('\n')
-				summary["infra"]++
-				return false
+				bw.Flush()
+				n++
+				return true
 			}
-			obs := s.observe(st)
-			js, err := json.Marshal(vRow{Tr: tr, Sid: sc.ID, N: n, Ev: ev, Res: res, Msg: msg, St: st, Obs: obs, Ms: time.Since(t0).Milliseconds(), NoViewConvert: !s.viewConverted})
-			if err != nil {
-				t.Fatal(err)
-			}
-			bw.Write(js)
-			bw.WriteByte('\n')
-			bw.Flush()
+		}
+		emit0 := mkEmit(s, sc.ID)
+		n := 0
+		emit := func(ev vStep, res, msg string, t0 time.Time) bool {
 			n++
-			return true
+			return emit0(ev, res, msg, t0, nil)
 		}
 		abandoned := false
 		ok := emit(vStep{A: "Init"}, "ok", "", time.Now())
@@ -380,7 +402,13 @@ func TestVerifManager(t *testing.T) {
 				ev.Convs = []string{}
 			}
 			t0 := time.Now()
-			res, msg, fatal := s.exec(ev)
+			var res, msg string
+			var fatal error
+			if ev.A == "Crash" {
+				res, msg, fatal = s.crash(ev, n)
+			} else {
+				res, msg, fatal = s.exec(ev)
+			}
 			if res == "hang" {
 				// the manager goroutine is stuck: nothing can be projected any more and Close would block
 				js, _ := json.Marshal(vRow{Tr: tr, Sid: sc.ID, N: n, Ev: ev, Res: "hang", Msg: msg})
@@ -412,6 +440,52 @@ func TestVerifManager(t *testing.T) {
 			s.close()
 		} else {
 			vInstallCtl(nil)
+		}
+		// C12: restart on every crash copy taken during the scenario, observe, settle
+		for _, c := range s.crashes {
+			c := c
+			ns, res, msg := s.restartOn(c, free)
+			cev := vStep{A: "CrashRestart", What: c.What, Cut: c.Cut, K: c.AtStep}
+			fill := func(r *vRow) { r.Pre, r.PreVis, r.Order, r.ExpTags = c.Pre, c.PreVis, c.Order, c.ExpTags }
+			sid := fmt.Sprintf("%s#c%d", sc.ID, c.K)
+			if ns == nil {
+				row := vRow{Tr: tr, Sid: sid, N: 0, Ev: cev, Res: res, Msg: msg + " | " + c.Note}
+				row.Ev.Convs = []string{}
+				fill(&row)
+				js, _ := json.Marshal(row)
+				bw.Write(js)
+				bw.WriteByte('\n')
+				bw.Flush()
+				summary["restart-"+res]++
+				if res == "hang" {
+					vInstallCtl(nil)
+				}
+				os.RemoveAll(c.Base)
+				continue
+			}
+			cemit := mkEmit(ns, sid)
+			ok := ns.waitJobs() == nil && cemit(cev, res, c.Note, time.Now(), fill)
+			for i := 0; ok && i < 300; i++ {
+				a := ns.nextSettleStep()
+				if a == "" {
+					break
+				}
+				ev := vStep{A: a}
+				r2, m2, fatal := ns.exec(ev)
+				if fatal == nil {
+					fatal = ns.waitJobs()
+				}
+				if fatal != nil {
+					summary["fatal"]++
+					break
+				}
+				ok = cemit(ev, r2, m2, time.Now(), nil)
+			}
+			if ok {
+				cemit(vStep{A: "EndSettle"}, "ok", "", time.Now(), func(r *vRow) { r.Last = true })
+			}
+			ns.close()
+			os.RemoveAll(c.Base)
 		}
 		os.RemoveAll(base)
 	}
